@@ -16,7 +16,7 @@ from runners.common import replay_with
 # nodes whose two children decay).  Once the fix proposed in the C07 report is applied to /repo, set
 # this to True (the tie then uses Kin.hel true, for which the theorems hold on ALL trees) and remove
 # the C07 entry from known_findings.json.
-MODEL_REPAIRED = False
+MODEL_REPAIRED = True
 
 TRUSTED = [
     "coq/theories/Kin.v is a hand-written model of compute_helicity_angles / compute_invariant_masses / "
